@@ -109,15 +109,79 @@ def resolved_horizon(pc, cfg):
     return h
 
 
+def gen_tiger(rng, gamma):
+    """information-gathering template (Tiger-like): m hidden states, action 0 = listen (informative
+    observation, small cost, state persists), actions 1.. = commit to a state (reward if right, penalty if
+    wrong, then terminal state or reset); observations only help through listening, so the value of a
+    belief depends on which alpha vector is used after each observation"""
+    m = rng.choice([2, 2, 3])
+    term = rng.random() < .5
+    n = m + (1 if term else 0)
+    ncommit = rng.randint(1, min(m, 2))
+    nA = 1 + ncommit
+    nO = m
+    trans, reward, obs = {}, {}, {}
+    drift = rng.random() < .4
+    for s in range(m):
+        if drift:
+            o = rng.choice([x for x in range(m) if x != s])
+            trans["%d,0" % s] = [[s, "7/8"], [o, "1/8"]]
+        else:
+            trans["%d,0" % s] = [[s, "1"]]
+        lc = str(F(-rng.randint(1, 4), 4))
+        for ns, p in trans["%d,0" % s]:
+            reward["%d,0,%d" % (s, ns)] = lc
+        for a in range(1, nA):
+            if term:
+                row = [[m, "1"]]
+            else:
+                parts = gen_mdp._split_prob(rng, m)
+                row = [[ns, str(p)] for ns, p in zip(range(m), parts)]
+            trans["%d,%d" % (s, a)] = row
+            r = F(rng.randint(4, 16), 2) if s == a - 1 else -F(rng.randint(4, 24), 2)
+            for ns, p in row:
+                reward["%d,%d,%d" % (s, a, ns)] = str(r)
+    if term:
+        for a in range(nA):
+            trans["%d,%d" % (m, a)] = [[m, "1"]]
+    acc = rng.choice([5, 6, 7])
+    for ns in range(n):
+        if ns < m:
+            others = [o for o in range(m) if o != ns]
+            rest = gen_mdp._split_prob(rng, len(others), denom=8 - acc) if len(others) > 1 and 8 - acc >= len(others) \
+                else [F(8 - acc, 8)] + [F(0)] * (len(others) - 1)
+            if len(others) > 1 and 8 - acc >= len(others):
+                rest = [x * F(8 - acc, 8) for x in rest]
+            row = [[ns, str(F(acc, 8))]] + [[o, str(p)] for o, p in zip(others, rest)]
+        else:
+            row = [[0, "1"]]
+        obs["0,%d" % ns] = row
+        for a in range(1, nA):
+            obs["%d,%d" % (a, ns)] = [[o, str(F(1, m))] for o in range(m)] if m != 3 else [[0, "1/2"], [1, "1/4"], [2, "1/4"]]
+    parts = gen_mdp._split_prob(rng, m)
+    init = [[s, str(p)] for s, p in zip(range(m), parts)]
+    return {"n": n, "nA": nA, "actions": [list(range(nA)) for _ in range(n)], "trans": trans, "reward": reward,
+            "absorbing": [False] * m + ([True] if term else []), "init": init, "gamma": gamma, "nO": nO,
+            "obs": obs, "obs_kinds": ["tiger"] * nA}
+
+
 def gen_case(rng, tier):
-    nmax = 3 if rng.random() < .6 else 4
-    pc = gen_pomdp.gen_pomdp(rng, nmax=nmax, amax=3, omax=3, gamma=rng.choice(GAMMAS))
-    fullobs = rng.random() < .2
+    r = rng.random()
+    gamma = rng.choice(GAMMAS)
+    if r < .35:
+        pc = gen_tiger(rng, gamma)
+    else:
+        nmax = 3 if rng.random() < .6 else 4
+        for _ in range(50):
+            pc = gen_pomdp.gen_pomdp(rng, nmax=nmax, amax=3, omax=3, gamma=gamma)
+            if (pc["nO"] >= 2 or rng.random() < .1) and (pc["nA"] >= 2 or rng.random() < .15):
+                break
+    fullobs = r >= .35 and rng.random() < .25
     if fullobs:
         pc["nO"] = pc["n"]
         pc["obs"] = {"%d,%d" % (a, ns): [[ns, "1"]] for a in range(pc["nA"]) for ns in range(pc["n"])}
         pc["obs_kinds"] = ["identity"] * pc["nA"]
-    cfg = {"min_exp": rng.choice([0, 1, 2]), "max_exp": rng.choice([1, 2, 3]),
+    cfg = {"min_exp": rng.choice([0, 1, 2, 3]), "max_exp": rng.choice([1, 2, 3]),
            "eps": rng.choice(EPSS), "horizon": rng.choice([None, None, 1, 3, 10])}
     if fullobs:
         cfg["min_exp"], cfg["max_exp"] = 3, rng.choice([2, 4])
@@ -132,7 +196,8 @@ def gen_case(rng, tier):
     rest = [b for b in bl if b not in keep]
     keep += rest[:max(0, 7 - len(keep))]
     return {"pomdp": pc, "pbvi": cfg, "beliefs": [b["b"] for b in keep],
-            "belief_kinds": [b["kind"] for b in keep], "qmdp_solvers": ["vi", "pi"], "fullobs": fullobs}
+            "belief_kinds": [b["kind"] for b in keep], "qmdp_solvers": ["vi", "pi"], "fullobs": fullobs,
+            "template": pc["obs_kinds"][0] if pc["obs_kinds"][0] in ("tiger", "identity") else "random"}
 
 
 def depth_for(pc):
